@@ -43,6 +43,11 @@ INDEX = {
  "C07": {"package": ".", "harnesses": [
    {"name": "VerifH07History", "common": {"max_depth": 2000}, "quick": {"bounds": {"steps": 2, "ops": 9, "rows": 2, "colhis": 1, "caches": 1}}, "thorough": {"bounds": {"steps": 2, "ops": 9, "rows": 3, "colhis": 2, "caches": 3}}},
  ]},
+ "C09": {"package": "./roaring", "harnesses": [
+   {"name": "VerifH09OpLogCrash", "common": {"max_depth": 3000}, "quick": {"bounds": {"steps": 2, "ops": 4, "keys": 1}}, "thorough": {"bounds": {"steps": 2, "ops": 4, "keys": 2}}},
+   {"name": "VerifH09FragmentCrash", "package": ".", "common": {"max_depth": 3000}, "quick": {"bounds": {"steps": 2, "ops": 8, "rows": 2}}, "thorough": {"bounds": {"steps": 2, "ops": 8, "rows": 4}}},
+   {"name": "VerifH09MutexCrash", "package": ".", "common": {"max_depth": 3000}, "quick": {"bounds": {"steps": 2, "ops": 4, "rows": 2}}, "thorough": {"bounds": {"steps": 3, "ops": 4, "rows": 3}}},
+ ]},
  "C10": {"package": ".", "harnesses": [
    {"name": "VerifH10Checksums", "common": {"max_depth": 2000}, "quick": {"bounds": {"ops": 9, "rows": 2, "colhis": 1, "caches": 3}}, "thorough": {"bounds": {"ops": 9, "rows": 3, "colhis": 2, "caches": 3}}},
  ]},
@@ -59,6 +64,9 @@ INDEX = {
  "C14": {"package": ".", "harnesses": [
    {"name": "VerifH14Value", "common": {"max_depth": 2000}, "quick": {"bounds": {"depths": 2, "cols": 1}}, "thorough": {"bounds": {"depths": 3, "cols": 2, "symbase": 1}}},
    {"name": "VerifH14Range", "common": {"max_depth": 2000}, "quick": {"bounds": {"depths": 2, "cols": 1, "ops": 7}}, "thorough": {"bounds": {"depths": 3, "cols": 2, "ops": 7, "symbase": 1}}},
+ ]},
+ "C15": {"package": ".", "harnesses": [
+   {"name": "VerifH15Algebra", "common": {"max_depth": 3000}, "quick": {"bounds": {"bits": 3, "trees": 9, "colhis": 1}}, "thorough": {"bounds": {"bits": 4, "trees": 9, "colhis": 2}}},
  ]},
  "C16": {"package": ".", "harnesses": [
    {"name": "VerifH16Rows", "common": {"max_depth": 3000}, "quick": {"bounds": {"steps": 2, "ops": 9, "rows": 2, "colhis": 1, "caches": 1}}, "thorough": {"bounds": {"steps": 2, "ops": 9, "rows": 4, "colhis": 2, "caches": 3}}},
